@@ -78,7 +78,23 @@ type Contract struct {
 	Flags      map[string]string // trusted, pure, noeffect, sequential, may_panic, nonblocking, yields, safety ...
 	ParamSpecs map[string]string // param -> named contract for func-typed parameters / values
 	Lets       []LetDef          // "let x = expr" evaluated in the pre-state
+	Sets       []SetDef          // "sets ghost(args) := expr": ghost updates performed at function exit
 	Used       bool
+}
+
+// allAssigns: the declared frame plus the targets of the ghost updates.
+func (c *Contract) allAssigns() []string {
+	out := append([]string{}, c.Assigns...)
+	for _, s := range c.Sets {
+		out = append(out, s.Target)
+	}
+	return out
+}
+
+type SetDef struct {
+	Target string // designator text, e.g. gateOpen(process)
+	E      Expr
+	Line   string
 }
 
 type LetDef struct {
@@ -131,7 +147,7 @@ func NewSpecSet() *SpecSet {
 
 var clauseKeywords = map[string]bool{"func": true, "requires": true, "ensures": true, "assigns": true, "loop": true,
 	"ghost": true, "pure": true, "define": true, "axiom": true, "package": true, "flag": true, "param": true, "let": true,
-	"field": true, "latch": true, "extern": true}
+	"field": true, "latch": true, "extern": true, "sets": true}
 
 // LoadSpecFile parses one contract file. pkgPrefix is prepended to in-repo function keys
 // ("" for extern spec files, which use fully qualified keys).
@@ -210,6 +226,19 @@ func (ss *SpecSet) LoadSpecFile(path string, pkgPrefix string) error {
 					cur.Assigns = append(cur.Assigns, d)
 				}
 			}
+		case "sets":
+			if cur == nil {
+				return fail(fmt.Errorf("clause outside func"))
+			}
+			i := strings.Index(rest, ":=")
+			if i < 0 {
+				return fail(fmt.Errorf("sets target := expr"))
+			}
+			e, err := ParseExpr(rest[i+2:])
+			if err != nil {
+				return fail(err)
+			}
+			cur.Sets = append(cur.Sets, SetDef{Target: strings.TrimSpace(rest[:i]), E: e, Line: where})
 		case "let":
 			if cur == nil {
 				return fail(fmt.Errorf("clause outside func"))
